@@ -178,6 +178,8 @@ impl<T> Queue<T> {
         unsafe {
             let node = Node::new(Some(t));
             let prev = self.head.swap(node, Ordering::AcqRel);
+            #[cfg(may_verif)]
+            crate::verif::label("list.push.swapped", self as *const _ as *const u8 as usize);
             (*node).prev = prev;
             (*prev).next.store(node, Ordering::Release);
             #[cfg(may_verif)]
